@@ -88,6 +88,10 @@ func (f *Progv) Call(s *slip.Scope, args slip.List, depth int) (result slip.Obje
 	d2 := depth + 1
 	for i := 2; i < len(args); i++ {
 		result = slip.EvalArg(ns, args, i, d2)
+		if _, exit := result.(slip.NonLocalExit); exit {
+			// return-from, return or go: control is leaving the body.
+			return
+		}
 	}
 	return
 }
